@@ -10,6 +10,10 @@
 // Part 2 (schedules, second half of this file): the vsched engine explores the interleavings of a bucket delete with a
 // concurrent writer on the same real stack.
 //
+// Part 3 (one delete over several shards, end of this file): the store's own per-shard delete goroutines of ONE
+// DeleteSeriesWithPredicate call are scheduler threads; the compiled predicate is wrapped so that its use by two
+// goroutines at once becomes a schedulable event; the delete result must be exact in every shard.
+//
 // What the oracle demands (nothing more than the statement):
 //   - reads: after a history, a whole-bucket ReadFilter returns, for every (series, field), exactly the points the
 //     model holds (a deleted point that is returned = "deleted-point-readable", a model point that is not returned =
@@ -38,9 +42,11 @@ import (
 	"testing/synctest"
 	"time"
 
+	influxdb "github.com/influxdata/influxdb/v2"
 	"github.com/influxdata/influxdb/v2/influxql/query"
 	"github.com/influxdata/influxdb/v2/models"
 	"github.com/influxdata/influxdb/v2/pkg/verifrt/vrt"
+	"github.com/influxdata/influxdb/v2/predicate"
 	"github.com/influxdata/influxdb/v2/storage/reads/datatypes"
 	"github.com/influxdata/influxdb/v2/tsdb/cursors"
 	"github.com/influxdata/influxql"
@@ -1759,12 +1765,453 @@ func replaySchedule(t *testing.T, raw json.RawMessage) (bool, string) {
 	return bad, cs.Scenario.String() + "\n" + strings.Join(v, "\n") + "\noutcome=" + res.outcome
 }
 
+// =========================================================================================================
+// PART 3: one bucket delete over SEVERAL shards (the store's own per-shard delete goroutines)
+// =========================================================================================================
+//
+// Store.DeleteSeriesWithPredicate hands ONE compiled predicate to the per-shard goroutines of walkShards. A compiled
+// predicate (tsm1 predicateMatcher) keeps the state of the key being matched inside the object and is not safe for
+// use by two goroutines at once (influxdb.Predicate has Clone for that). Its Matches has no synchronisation operation,
+// so the scheduler cannot split it; the API takes the interface, so the harness passes the REAL compiled predicate
+// wrapped in hookPred: Matches keeps the key being matched in the wrapper object (as the real matcher keeps its tag
+// slots), passes a hook point, and then lets the real compiled predicate evaluate the stored key. Used by one goroutine
+// at a time (or through Clone) the wrapper is exactly the real predicate; used by two goroutines at once it mixes up
+// their keys, as the real one mixes up its state. The oracle is the statement only: after the delete the bucket holds
+// exactly the points of the non-matching series, in every shard, and a series is listed iff it has data. "Predicate
+// used by two goroutines at once" is reported as a diagnostic inside the message, never as a violation by itself.
+type hookPred struct {
+	inner   influxdb.Predicate
+	cur     []byte
+	inside  int
+	calls   int
+	overlap bool // two goroutines were inside Matches of this object at the same time
+}
+
+func (p *hookPred) Clone() influxdb.Predicate { return &hookPred{inner: p.inner.Clone()} }
+func (p *hookPred) Marshal() ([]byte, error)  { return p.inner.Marshal() }
+func (p *hookPred) Matches(key []byte) bool {
+	p.calls++
+	p.inside++
+	if p.inside > 1 {
+		p.overlap = true
+	}
+	p.cur = append(p.cur[:0], key...)
+	vrt.Hook("pred:Matches/key-loaded")
+	r := p.inner.Matches(p.cur)
+	p.inside--
+	return r
+}
+
+// MScenario: Shards shard groups g = 0..Shards-1, each holding one point (field f0 @ B+g·1h+10) of every series of
+// mPool – the shards are identical up to the time offset. One bucket delete over all time with predicate Pred.
+type MScenario struct {
+	Layout string `json:"layout"` // cache | tsm
+	Shards int    `json:"shards"`
+	Pred   string `json:"pred"` // tag-eq | measurement+tag-eq | tag-ne
+}
+
+var mPool = []struct {
+	key  string
+	m    string
+	tags []mini.Tag
+}{
+	{"m0,a=x", "m0", mini.T("a", "x")},
+	{"m0,a=y", "m0", mini.T("a", "y")},
+	{"m1,a=x", "m1", mini.T("a", "x")},
+}
+
+func (s MScenario) predText() string {
+	switch s.Pred {
+	case "tag-eq":
+		return `a="x"`
+	case "measurement+tag-eq":
+		return `_measurement="m0" AND a="x"`
+	default:
+		return `a!="x"`
+	}
+}
+
+func (s MScenario) matches(i int) bool {
+	switch s.Pred {
+	case "tag-eq":
+		return i == 0 || i == 2
+	case "measurement+tag-eq":
+		return i == 0
+	default:
+		return i == 1
+	}
+}
+
+func (s MScenario) String() string {
+	return fmt.Sprintf("layout=%s, %d identical shards each holding {m0,a=x m0,a=y m1,a=x}: one bucket delete(all time, %s)", s.Layout, s.Shards, s.predText())
+}
+
+type MCase struct {
+	M       *MScenario `json:"multi_shard"`
+	Choices []int      `json:"schedule"`
+	Sig     string     `json:"expect_signature,omitempty"`
+	Trace   []string   `json:"trace,omitempty"`
+}
+
+func branchPred(kind vrt.OpKind, label string) bool {
+	return kind == vrt.OpHook && (strings.HasPrefix(label, "pred:") || strings.HasPrefix(label, "call:"))
+}
+
+// deleteWrapped is mini.Fixture.Delete with the compiled predicate passed through wrap.
+func deleteWrapped(f *mini.Fixture, b mini.Bucket, min, max int64, pred string, wrap func(influxdb.Predicate) influxdb.Predicate) error {
+	node, err := predicate.Parse(pred)
+	if err != nil {
+		return err
+	}
+	p, err := predicate.New(node)
+	if err != nil {
+		return err
+	}
+	expr, err := influxql.ParseExpr(pred)
+	if err != nil {
+		return err
+	}
+	measurement, _, err := influxql.PartitionExpr(influxql.CloneExpr(expr), func(e influxql.Expr) (bool, error) {
+		if be, ok := e.(*influxql.BinaryExpr); ok {
+			switch be.Op {
+			case influxql.EQ, influxql.NEQ, influxql.EQREGEX, influxql.NEQREGEX:
+				if tag, ok := be.LHS.(*influxql.VarRef); ok && tag.Val == "_measurement" {
+					return true, nil
+				}
+			}
+		}
+		return false, nil
+	})
+	if err != nil {
+		return err
+	}
+	return f.Engine.DeleteBucketRangePredicate(context.Background(), b.OrgID, b.ID, min, max, wrap(p), measurement)
+}
+
+// shardViews renders what each shard holds, one string per shard, WITHOUT the shard's identity (the shards are
+// identical and the store visits them in map order), sorted.
+func (s MScenario) shardViews(data sstate) []string {
+	var out []string
+	for g := 0; g < s.Shards; g++ {
+		var p []string
+		for _, sd := range mPool {
+			st := "gone"
+			if _, ok := data[sd.key][B+int64(g)*H+10]; ok {
+				st = "kept"
+			}
+			p = append(p, sd.key+":"+st)
+		}
+		out = append(out, "{"+strings.Join(p, " ")+"}")
+	}
+	sort.Strings(out)
+	return out
+}
+
+func runMulti(t *testing.T, sc MScenario, prefix []int) (*vrt.Result, sresult) {
+	var res sresult
+	add := func(sig, msg string) { res.verdicts = append(res.verdicts, sig+"|"+msg) }
+	h := &vrt.Harness{Name: sc.String(), Filter: branchPred, Body: func(x *vrt.Exec) {
+		f, err := mini.Open(mini.Options{})
+		if err != nil {
+			add("harness", "open: "+err.Error())
+			return
+		}
+		closed := false
+		closeF := func() {
+			if !closed {
+				closed = true
+				if err := f.Close(); err != nil {
+					add("harness", "close: "+err.Error())
+				}
+			}
+		}
+		defer closeF()
+		b, err := f.CreateBucket("db0", 0)
+		if err != nil {
+			add("harness", "bucket: "+err.Error())
+			return
+		}
+		var pts []mini.Point
+		for g := 0; g < sc.Shards; g++ {
+			for i, sd := range mPool {
+				pts = append(pts, mini.Point{M: sd.m, Tags: sd.tags, Fields: map[string]any{"f0": float64(10*g + i + 1)}, T: B + int64(g)*H + 10})
+			}
+		}
+		if err := f.Write(b, pts); err != nil {
+			add("harness", "write: "+err.Error())
+			return
+		}
+		if sc.Layout == "tsm" {
+			if err := f.SnapshotAll(); err != nil {
+				add("harness", "snapshot: "+err.Error())
+				return
+			}
+		}
+		if n := len(f.ShardIDs(b)); n != sc.Shards {
+			add("harness", fmt.Sprintf("expected %d shards, got %d", sc.Shards, n))
+			return
+		}
+		synctest.Wait()
+		var hp *hookPred
+		var delErr error
+		x.Go("delete", func() {
+			vrt.Hook("call:delete")
+			delErr = deleteWrapped(f, b, models.MinNanoTime, models.MaxNanoTime, sc.predText(), func(p influxdb.Predicate) influxdb.Predicate {
+				hp = &hookPred{inner: p}
+				return hp
+			})
+		})
+		x.S.MaxSteps = 100000
+		x.Run()
+		dead, capHit := x.S.Deadlock, x.S.StepCap
+		blocked := strings.Join(x.S.Blocked, "; ")
+		x.S.Drain()
+		if dead {
+			add("deadlock", blocked)
+		}
+		if capHit {
+			add("harness", "step cap")
+		}
+		if dead || capHit {
+			return
+		}
+		if delErr != nil {
+			add("delete-error", delErr.Error())
+			return
+		}
+		diag := ""
+		if hp != nil && hp.overlap {
+			diag = " [diagnostic: the one compiled predicate object was inside Matches for two shard goroutines at the same time]"
+		}
+		o := observe(f, b)
+		if o.err != "" {
+			add("read-error", o.err)
+			return
+		}
+		want := sstate{}
+		for g := 0; g < sc.Shards; g++ {
+			for i, sd := range mPool {
+				if !sc.matches(i) {
+					if want[sd.key] == nil {
+						want[sd.key] = map[int64]float64{}
+					}
+					want[sd.key][B+int64(g)*H+10] = float64(10*g + i + 1)
+				}
+			}
+		}
+		got, exp := sc.shardViews(o.data), sc.shardViews(want)
+		survived, lost, other := false, false, false
+		for i, sd := range mPool {
+			for g := 0; g < sc.Shards; g++ {
+				tt := B + int64(g)*H + 10
+				v, ok := o.data[sd.key][tt]
+				switch {
+				case ok && sc.matches(i):
+					survived = true
+				case !ok && !sc.matches(i):
+					lost = true
+				case ok && v != float64(10*g+i+1):
+					other = true
+				}
+			}
+			for tt := range o.data[sd.key] {
+				if g := (tt - B - 10) / H; (tt-B-10)%H != 0 || g < 0 || g >= int64(sc.Shards) {
+					other = true
+				}
+			}
+		}
+		for k := range o.data {
+			if k != mPool[0].key && k != mPool[1].key && k != mPool[2].key {
+				other = true
+			}
+		}
+		msg := fmt.Sprintf("after the delete the shards hold %s; the statement demands %s%s", strings.Join(got, " "), strings.Join(exp, " "), diag)
+		if survived {
+			add("deleted-point-readable", msg)
+		}
+		if lost {
+			add("surviving-point-missing", msg)
+		}
+		if other {
+			add("final-data-wrong", msg+fmt.Sprintf("; bucket reads {%s}", o.data.String()))
+		}
+		if !survived && !lost && !other {
+			n := 0
+			for i, sd := range mPool {
+				has := !sc.matches(i)
+				if has {
+					n++
+				}
+				if has && !o.listed[sd.key] {
+					add("series-with-data-not-listed", fmt.Sprintf("series %s has points but SHOW SERIES lists %s%s", sd.key, setStr(o.listed), diag))
+				}
+				if !has && o.listed[sd.key] {
+					add("series-listed-without-data", fmt.Sprintf("series %s has no point left but SHOW SERIES lists %s%s", sd.key, setStr(o.listed), diag))
+				}
+			}
+			if int(o.card) != n {
+				cl := "series-listed-without-data"
+				if int(o.card) < n {
+					cl = "series-with-data-not-listed"
+				}
+				add(cl, fmt.Sprintf("Store.SeriesCardinality = %d but %d series have points%s", o.card, n, diag))
+			}
+		}
+		calls := 0
+		if hp != nil {
+			calls = hp.calls
+		}
+		res.outcome = fmt.Sprintf("multi-shard/%s/shards=%d/matches-calls=%d/concurrent-use=%v/final=%s", sc.Pred, sc.Shards, calls, hp != nil && hp.overlap, strings.Join(got, ""))
+		x.Outcome = res.outcome
+		closeF()
+	}}
+	defer runtime.GOMAXPROCS(runtime.GOMAXPROCS(1))
+	r := vrt.RunOnce(t, h, prefix)
+	if schedDebug && os.Getenv("C17_SCHED_DEBUG") == "steps" {
+		for i, s := range r.Steps {
+			fmt.Fprintf(os.Stderr, "%4d T%d %-70s en=%v c=%d\n", i, s.Thread, s.Label, s.Enabled, s.Choice)
+		}
+		fmt.Fprintf(os.Stderr, "names=%v outcome=%s verdicts=%v diverged=%q\n", r.Names, res.outcome, res.verdicts, r.Diverged)
+	}
+	return r, res
+}
+
+func mscenarios() []MScenario {
+	var out []MScenario
+	for _, n := range []int{2, 3} {
+		for _, lay := range []string{"cache", "tsm"} {
+			for _, p := range []string{"tag-eq", "measurement+tag-eq", "tag-ne"} {
+				out = append(out, MScenario{lay, n, p})
+			}
+		}
+	}
+	return out
+}
+
+func msig(sc MScenario, clause string) string {
+	return vlib.JoinSig("shards", clause, "one-delete-over-several-shards", "pred="+sc.Pred, "layout="+sc.Layout)
+}
+
+// exploreMulti: every schedule of the scenario with ≤ bound preemptions at the predicate's hook points (DFS, not
+// sub-sharded: a scenario belongs to one worker).
+func exploreMulti(t *testing.T, sc MScenario, bound int, stop func() bool, visit func(*vrt.Result, sresult)) (st vrt.Stats) {
+	st = vrt.Stats{Bound: bound, Complete: true}
+	var rec func(prefix []int)
+	rec = func(prefix []int) {
+		if stop() {
+			st.Complete = false
+			return
+		}
+		x, res := runMulti(t, sc, prefix)
+		st.Executions++
+		st.Transitions += int64(len(x.Steps))
+		visit(x, res)
+		if x.Diverged != "" {
+			return
+		}
+		pre := 0
+		for i := 0; i < len(x.Steps); i++ {
+			sp := x.Steps[i]
+			if i >= len(prefix) {
+				if len(sp.Enabled) > 1 {
+					st.Nodes++
+				}
+				for alt := 1; alt < len(sp.Enabled); alt++ {
+					if pre+sp.Costs[alt] > bound {
+						continue
+					}
+					rec(append(append([]int{}, x.Choices[:i]...), alt))
+				}
+			}
+			if sp.Preempt {
+				pre++
+			}
+		}
+	}
+	rec(nil)
+	return st
+}
+
+func runMultiShard(t *testing.T, c *vlib.Ctx, stop func() bool) {
+	scs := mscenarios()
+	c.Note("multi_shard_scenarios", fmt.Sprint(len(scs)))
+	for si, sc := range scs {
+		if !c.Mine(int64(si)) {
+			continue
+		}
+		if stop() {
+			c.Cap("budget share of part 3 expired before all multi-shard scenarios were explored")
+			return
+		}
+		st := exploreMulti(t, sc, 2, stop, func(r *vrt.Result, res sresult) {
+			c.Eval(1)
+			c.NontrivialN(1) // every execution deletes ≥ 1 point in ≥ 2 shards
+			if r.Diverged != "" {
+				c.HarnessError(sc.String() + ": " + r.Diverged)
+				return
+			}
+			c.Outcome("schedule/" + res.outcome)
+			for _, v := range res.verdicts {
+				p := strings.SplitN(v, "|", 2)
+				if p[0] == "harness" {
+					c.HarnessError(sc.String() + ": " + p[1])
+					continue
+				}
+				scc := sc
+				cs := MCase{M: &scc, Choices: r.Choices, Sig: msig(sc, p[0])}
+				for _, s := range r.Steps {
+					if len(s.Enabled) > 1 || strings.HasPrefix(s.Label, "pred:") {
+						cs.Trace = append(cs.Trace, fmt.Sprintf("T%d %s", s.Thread, s.Label))
+					}
+				}
+				c.Violation(cs.Sig, sc.String()+": "+p[1], cs)
+			}
+			if c.WantSample() {
+				c.Sample(map[string]any{"scenario": sc.String(), "schedule_len": len(r.Choices), "outcome": res.outcome})
+			}
+		})
+		if !st.Complete {
+			c.Cap("budget share of part 3 expired inside multi-shard scenario " + sc.String())
+		}
+		c.StateN(st.Nodes)
+		c.Transition(st.Transitions)
+		c.Trace(st.Executions)
+	}
+}
+
+func replayMulti(t *testing.T, raw json.RawMessage) (bool, string) {
+	var cs MCase
+	if err := json.Unmarshal(raw, &cs); err != nil || cs.M == nil {
+		return false, "bad case"
+	}
+	r, res := runMulti(t, *cs.M, cs.Choices)
+	if r.Diverged != "" {
+		return false, "diverged: " + r.Diverged
+	}
+	var v []string
+	bad := false
+	for _, x := range res.verdicts {
+		p := strings.SplitN(x, "|", 2)
+		if p[0] == "harness" {
+			continue
+		}
+		if cs.Sig == "" || msig(*cs.M, p[0]) == cs.Sig {
+			bad = true
+			v = append(v, "VIOLATED "+x)
+		} else {
+			v = append(v, "(other class) "+x)
+		}
+	}
+	return bad, cs.M.String() + "\n" + strings.Join(v, "\n") + "\noutcome=" + res.outcome
+}
+
 var rule = "PART 1 (histories; real storage.Engine.DeleteBucketRangePredicate → tsdb.Store.DeleteSeriesWithPredicate as POST /api/v2/delete calls it, mini fixture). " +
 	"Series pool m0{a=x}, m0{a=y,b=z}, m1{a=x,b=z}, m1{a=y}; fields f0(float) f1(integer), field layout fixed per series (m0{a=x}: both fields on every slot; m0{a=y,b=z}: f0 on even, f1 on odd slots; m1{a=x,b=z}: f0; m1{a=y}: f1); 4 time slots B+10, B+1h-1 | B+1h, B+1h+10 in two 1h shard groups; layouts cache / tsm (one TSM file per shard) / mixed (even slots TSM, odd slots cache). " +
 	"Datasets: every series absent / shard A only / shard B only / both (255 sets). Deletes = ranges × predicates, complete product: ranges quick {all, [t1,t1], [t1,t2] across the boundary, [t0,t1] one shard, [t0+1,t3-1], empty [t0+1,t1-1]} + thorough {[t2,t2], [t2,t3], [t2,MaxNanoTime], inverted [t2,t1]}; predicates quick {none, _measurement=m0, a=x, b=z, m0 AND a=y, m1 AND a=x, _measurement=m1, a!=x} + thorough {a=y, m0 AND a=x, a=x AND b=z, _measurement=mz (absent), m0 AND a=q (no match), _measurement!=m0, _measurement!=m1, m1 AND a!=x}. " +
 	"Depth 1: quick = the full set (4 series in both shards) × 3 layouts + the 4 sets with 3 series in both shards and the sets [A,both,B,both], [both,B,A,A] in layout mixed = 9 datasets × 48 deletes; thorough = all 255 sets, set i in layout (cache,tsm,mixed)[i mod 3], the 15 sets whose series are all in both shards in all 3 layouts = 285 datasets × 160 deletes. " +
 	"Depth ≥2 on the full dataset: delete ; mid ; delete for every ordered pair of a reduced delete family (quick 3 ranges × 4 predicates = 12, thorough 5 × 5 = 25) × mid ∈ {nothing, rewrite all points with new values} (quick, layout mixed) + {rewrite+snapshot} (thorough, 3 layouts). After EVERY operation: ReadFilter of the whole bucket and of each shard-group range, Store.MeasurementNames / TagKeys / TagValues (with and without a WHERE filter) / SeriesCardinality, InfluxQL SHOW SERIES / SHOW MEASUREMENTS, reads.Store TagKeys / TagValues(_measurement, a, b) for the whole bucket and per shard-group range, all compared with the statement's model. evaluations = verified operations; non-trivial = deletes that remove ≥1 point. " +
-	"PART 2 (schedules; vsched, every tsdb/tsm1/tsi1 file that uses sync compiled against the modelled primitives). One shard holding s0=m0{a=x} (1 or 2 points) and s1=m0{a=y,b=z}; thread 1 = bucket delete `_measurement=m0 AND a=x` over [B,B+10] or everything (Engine.DeleteBucketRangePredicate), thread 2 = Store.WriteToShard of one point: other-series (s1 in range), match-out (s0 outside the range), match-in (s0 in range), new-match-in (new series m0{a=x,c=n} in range); layouts cache / tsm: quick 11 scenarios, thorough 28. EVERY schedule with ≤ B preemptions (B=1 quick; thorough B=2 for the 14 cache-layout scenarios and the 4 tsm scenarios with one point and range [B,B+10], B=1 for the other 10; a switch when the running thread blocks or ends is free) branching at the sync/atomic operations of Store, epochTracker, guard, Shard, tsm1.Engine, tsm1.Cache is executed; afterwards the bucket is read and SHOW SERIES / SeriesCardinality / MeasurementNames queried. Non-conflicting writes: final state = delete and write both applied, and the writer never parks in guard.Wait; conflicting writes: final state = one of the two orders (the real-time order when the calls do not overlap), and a series is listed iff it has data. states = decision nodes, transitions = scheduling steps, traces = executions."
+	"PART 2 (schedules; vsched, every tsdb/tsm1/tsi1 file that uses sync compiled against the modelled primitives). One shard holding s0=m0{a=x} (1 or 2 points) and s1=m0{a=y,b=z}; thread 1 = bucket delete `_measurement=m0 AND a=x` over [B,B+10] or everything (Engine.DeleteBucketRangePredicate), thread 2 = Store.WriteToShard of one point: other-series (s1 in range), match-out (s0 outside the range), match-in (s0 in range), new-match-in (new series m0{a=x,c=n} in range); layouts cache / tsm: quick 11 scenarios, thorough 28. EVERY schedule with ≤ B preemptions (B=1 quick; thorough B=2 for the 14 cache-layout scenarios and the 4 tsm scenarios with one point and range [B,B+10], B=1 for the other 10; a switch when the running thread blocks or ends is free) branching at the sync/atomic operations of Store, epochTracker, guard, Shard, tsm1.Engine, tsm1.Cache is executed; afterwards the bucket is read and SHOW SERIES / SeriesCardinality / MeasurementNames queried. Non-conflicting writes: final state = delete and write both applied, and the writer never parks in guard.Wait; conflicting writes: final state = one of the two orders (the real-time order when the calls do not overlap), and a series is listed iff it has data. states = decision nodes, transitions = scheduling steps, traces = executions. " +
+	"PART 3 (one delete over several shards; vsched). 2 or 3 identical shard groups each holding one point of m0{a=x}, m0{a=y}, m1{a=x}; layouts cache / tsm; ONE bucket delete over all time with predicate a=x, _measurement=m0 AND a=x, or a!=x (12 scenarios, both tiers) through Engine.DeleteBucketRangePredicate; the store's own per-shard delete goroutines (walkShards) are scheduler threads. The real compiled predicate is passed wrapped in a harness predicate whose Matches keeps the key being matched in the wrapper object, passes a hook point and then lets the real predicate evaluate the stored key (single-goroutine or Clone'd use = the real predicate; simultaneous use by two goroutines mixes up their keys, like the real matcher's per-key state). EVERY schedule with ≤ 2 preemptions at those hook points is executed (one execution per scenario as long as the store serialises its per-shard deletes); afterwards every shard must hold exactly the points of the non-matching series, and SHOW SERIES / SeriesCardinality list exactly the series with data."
 
 var assumptions = []string{
 	"delete range is inclusive on both ends ([min,max], as tsm1.Engine.DeleteSeriesRange documents); a delete predicate selects series by measurement and tags only (delete by field is rejected by the API)",
@@ -1773,6 +2220,7 @@ var assumptions = []string{
 	"metadata queries restricted to one shard group's time range: only data ⇒ listed is demanded; a name whose data lives only in the other shard may or may not be listed",
 	"a write 'does not conflict' with a delete iff its point is outside the delete's time range or its series does not match the delete's predicate",
 	"part 2: sequentially consistent interleavings at the granularity of the modelled mutex/atomic operations; branching only at Store/epochTracker/guard/Shard/Engine/Cache operations (the pure loads of IsIdle / Cache.Size / Cache.init and all other locks are passed silently when free); the writer enters at tsdb.Store.WriteToShard (what coordinator.PointsWriter calls per shard), not through the PointsWriter's goroutine + timeout timer",
+	"part 3: a compiled delete predicate (influxdb.Predicate) is not safe for use by two goroutines at once (the tsm1 predicateMatcher keeps generation counter, tag slots and memoised node results in the object; the interface offers Clone); the harness makes that visible to the cooperative scheduler – which cannot preempt inside the real Matches, as it contains no synchronisation operation – by wrapping the real compiled predicate: the wrapper holds the key between a hook point and the real evaluation. 'Predicate used by two goroutines at once' is only a diagnostic in the message; the violation is always a wrong delete result. The shards of a scenario are identical up to their time offset and are reported without their identity (the store visits its shards in map order)",
 	"background compactions/retention are off (mini fixture); the level-compaction goroutine that DeleteSeriesRange starts has nothing to do with < 4 TSM files per shard",
 }
 
@@ -1787,7 +2235,7 @@ func TestCheck(t *testing.T) {
 		WorkerEnv: []string{"GOMAXPROCS=1"},
 		Run: func(c *vlib.Ctx) {
 			part := os.Getenv("C17_PART") // debugging aid: "hist" or "sched" runs only that part
-			// part 2 (schedules) first, with at most 55% of the wall budget; part 1 gets the rest
+			// parts 3 and 2 (schedules) first, with at most 55% of the wall budget together; part 1 gets the rest
 			budget := time.Duration(quickBudgetS) * time.Second
 			if c.Thorough() {
 				budget = time.Duration(thoroughBudgetS) * time.Second
@@ -1795,7 +2243,17 @@ func TestCheck(t *testing.T) {
 			if v, err := strconv.Atoi(os.Getenv("VERIF_BUDGET_S")); err == nil && v > 0 {
 				budget = time.Duration(v) * time.Second
 			}
-			schedDeadline := time.Now().Add(budget * 55 / 100)
+			// part 3 (one delete over several shards): a scenario is one execution unless the store runs its per-shard
+			// deletes concurrently; at most 25% of the wall budget
+			t0 := time.Now()
+			multiDeadline := t0.Add(budget * 25 / 100)
+			if part == "" || part == "multi" {
+				runMultiShard(t, c, func() bool { return c.Expired() || time.Now().After(multiDeadline) })
+			}
+			if part == "multi" {
+				return
+			}
+			schedDeadline := t0.Add(budget * 55 / 100)
 			if part != "hist" {
 				runSchedules(t, c, func() bool { return c.Expired() || time.Now().After(schedDeadline) })
 			}
@@ -1827,6 +2285,10 @@ func TestCheck(t *testing.T) {
 		Replay: func(c *vlib.Ctx, raw json.RawMessage) (bool, string) {
 			var probe struct {
 				Scenario *json.RawMessage `json:"scenario"`
+				Multi    *json.RawMessage `json:"multi_shard"`
+			}
+			if json.Unmarshal(raw, &probe) == nil && probe.Multi != nil {
+				return replayMulti(t, raw)
 			}
 			if json.Unmarshal(raw, &probe) == nil && probe.Scenario != nil {
 				return replaySchedule(t, raw)
